@@ -26,8 +26,8 @@ TABLE = {"load": "load", "sgen": "sgen", "asymmetric_load": "asymmetric_load", "
 
 TIER_CONSTANTS = {
     "quick": {"NSlots": "2", "ElemBuses": "{1, 2, 4}", "Pats": '{"bal", "unb"}', "Mods": '{"none"}',
-              "VGs": '{"Dyn", "YNyn", "Yzn"}', "Topos": '{"radial", "ring", "cut"}'},
-    "thorough": {"NSlots": "2", "ElemBuses": "{1, 2, 3, 4}", "Pats": '{"bal", "unb", "zero"}',
+              "VGs": '{"Dyn", "YNyn", "Yzn"}', "Topos": '{"radial", "cut"}'},
+    "thorough": {"NSlots": "2", "ElemBuses": "{1, 2, 4}", "Pats": '{"bal", "unb", "zero"}',
                  "Mods": '{"none", "oos", "half"}', "VGs": '{"Dyn", "YNyn", "Yzn", "Yy", "YNd"}',
                  "Topos": '{"radial", "ring", "cut", "toff", "notrafo"}'},
 }
@@ -128,6 +128,40 @@ def project1(net, where, ok):
     return out
 
 
+def _residual(net, case, where):
+    """STATISTICS ONLY (never part of a verdict): largest per-phase nodal residual in nano-MW / nano-Mvar over the
+    non-slack buses where the model requires per-phase balance; documents the margin of NodalTol in Phase3Obs.tla."""
+    worst = 0.0
+    pl = case["plant"]
+    for b in case["meta"]["perphase"]:
+        if b == 1:
+            continue
+        for ph in PH:
+            for col, q in (("p_%s%s_mw", False), ("q_%s%s_mvar", True)):
+                s = 0.0
+                for e, w in zip(case["cfg"]["elems"], where):
+                    if w is None or e["bus"] != b:
+                        continue
+                    sign = -1.0 if w[0].endswith("sgen") else 1.0
+                    df = net["res_%s_3ph" % w[0]]
+                    if w[0].startswith("asymmetric"):
+                        s += sign * float(df.at[w[1], ("q_%s_mvar" if q else "p_%s_mw") % ph])
+                    else:
+                        s += sign * float(df.at[w[1], "q_mvar" if q else "p_mw"]) / 3.0
+                for l, ((f, t), ins) in enumerate(zip(pl["ends"], pl["lines"])):
+                    if ins and f == b:
+                        s += float(net.res_line_3ph.at[l, col % (ph, "_from")])
+                    if ins and t == b:
+                        s += float(net.res_line_3ph.at[l, col % (ph, "_to")])
+                if pl["trafo"] == "on" and b == pl["thv"]:
+                    s += float(net.res_trafo_3ph.at[0, col % (ph, "_hv")])
+                if pl["trafo"] == "on" and b == pl["tlv"]:
+                    s += float(net.res_trafo_3ph.at[0, col % (ph, "_lv")])
+                if s == s:
+                    worst = max(worst, abs(s))
+    return int(round(worst * 1e9))
+
+
 def observe(case):
     """Instantiate one model state on the real code: runpp_3ph and runpp on the same network; log fixed-point numbers."""
     import numpy as np
@@ -137,7 +171,7 @@ def observe(case):
     net = copy.deepcopy(base_net(case["cfg"]["vg"], case["plant"]))
     where = add_elements(pp, net, case)
     obs = dict(case)
-    diag = {"vdev": 0}
+    diag = {"vdev": 0, "resid_nano": 0}
     try:
         runpp_3ph(net, tolerance_mva=1e-9, max_iteration=60)
         out3 = "ok" if net.converged else "notconv"
@@ -154,6 +188,8 @@ def observe(case):
             vm = net.res_bus_3ph[["vm_a_pu", "vm_b_pu", "vm_c_pu"]].values
             if np.isfinite(vm).any():
                 diag["vdev"] = int(round(float(np.nanmax(np.abs(vm - 1.0))) * 1e6))     # micro-p.u., statistics only
+            if case["meta"]["checked"]:
+                diag["resid_nano"] = _residual(net, case, where)
     except OverflowError as e:      # |value| >= 1000: garbage results (only seen outside the documented vector groups)
         out3 = "error"
         diag["err3"] = "OverflowError: %s" % e
@@ -269,11 +305,15 @@ def run(tier, seed, replay=None):
         "not_converged_3ph": sum(1 for c in cases if c["out3"] == "notconv"),
         "rejected_vector_group": sum(1 for c in cases if c["out3"] == "notimpl"),
         "unchecked_open_vector_group": sum(1 for c in cases if c["out3"] != "notimpl" and not c["meta"]["checked"]),
+        "open_vector_group_converged_with_nan_voltages": sum(
+            1 for c in cases if c["out3"] == "ok" and not c["meta"]["checked"]
+            and any(x == NAN for b in c["r3"]["bus"] for x in b["vm"])),
         "balanced_by_cancellation_not_all_symmetric": sum(1 for c in unb if c["meta"]["netbal"]),
         "cases_with_bus_exempt_from_per_phase_balance_delta": sum(
             1 for c in unb if len(c["meta"]["perphase"]) < len(c["meta"]["sup"])),
         "cases_with_unsupplied_bus": sum(1 for c in solved if len(c["meta"]["sup"]) < 4),
         "max_abs_vm_minus_1": round(vdev, 4),
+        "max_per_phase_nodal_residual_mw_non_slack": max([c["diag"].get("resid_nano", 0) for c in solved] or [0]) / 1e9,
         "wall_model_tlc_s": round(t1 - t0, 1), "wall_implementation_s": round(t2 - t1, 1),
         "wall_observation_tlc_s": round(t3 - t2, 1),
         "model_constants": TIER_CONSTANTS[tier] if not replay else "replay",
